@@ -156,6 +156,85 @@ func ruleE2(c *Ctx) []Ob {
 			}
 		}
 	}
+	// New functions hand out fresh objects: what they build is allocated in the call, and nothing captured from the enclosing
+	// function (other than through constructor calls such as reflect.New(t)) is stored into it or returned
+	seenNew := map[*ssa.Function]bool{}
+	for _, nf := range c.poolNewFns {
+		if seenNew[nf] {
+			continue
+		}
+		seenNew[nf] = true
+		captured := map[ssa.Value]bool{}
+		for _, fv := range nf.FreeVars {
+			captured[fv] = true
+		}
+		for changed := true; changed; {
+			changed = false
+			for _, b := range nf.Blocks {
+				for _, ins := range b.Instrs {
+					v, ok := ins.(ssa.Value)
+					if !ok || captured[v] {
+						continue
+					}
+					switch x := ins.(type) {
+					case *ssa.UnOp:
+						if captured[x.X] {
+							captured[v], changed = true, true
+						}
+					case *ssa.FieldAddr:
+						if captured[x.X] {
+							captured[v], changed = true, true
+						}
+					case *ssa.Field:
+						if captured[x.X] {
+							captured[v], changed = true, true
+						}
+					case *ssa.Convert:
+						if captured[x.X] {
+							captured[v], changed = true, true
+						}
+					case *ssa.ChangeType:
+						if captured[x.X] {
+							captured[v], changed = true, true
+						}
+					case *ssa.Phi:
+						for _, e := range x.Edges {
+							if captured[e] {
+								captured[v], changed = true, true
+							}
+						}
+					}
+				}
+			}
+		}
+		bad := ""
+		for _, b := range nf.Blocks {
+			for _, ins := range b.Instrs {
+				switch x := ins.(type) {
+				case *ssa.Store:
+					if captured[x.Val] {
+						bad = "stores a value captured from the enclosing function (" + path(x.Val) + ") at " + c.InstrPos(x)
+					}
+				case *ssa.MakeInterface:
+					if captured[x.X] {
+						bad = "returns a value captured from the enclosing function at " + c.InstrPos(x)
+					}
+					if _, isAlloc := x.X.(*ssa.Alloc); !isAlloc {
+						if _, isRet := b.Instrs[len(b.Instrs)-1].(*ssa.Return); isRet && bad == "" {
+							if _, isCall := x.X.(*ssa.Call); !isCall {
+								bad = "returns something that is not allocated in the call at " + c.InstrPos(x)
+							}
+						}
+					}
+				}
+			}
+		}
+		parent := "package level"
+		if nf.Parent() != nil {
+			parent = shortFn(nf.Parent())
+		}
+		s.check(bad == "", "pool-new:"+parent+":"+nf.Name(), c.Pos(nf.Pos()), "New builds a fresh object from constructor calls only", "the pool's New function "+bad+": every object of the pool shares that state, so concurrent users of the pool overwrite each other's scratch")
+	}
 	// Reset body of unknownFields
 	if fn := c.Func(pkgReflect, "(*unknownFields).Reset"); fn != nil {
 		szZero, offsTrunc := false, false
@@ -799,6 +878,7 @@ func (c *Ctx) poolNewType(pool ssa.Value, at *ssa.Function) types.Type {
 						}
 					}
 				}
+				c.poolNewFns = append(c.poolNewFns, nf)
 			}
 		}
 	}
